@@ -366,7 +366,8 @@ def main_wrapper(pid, fn):
         rc = fn(ctx)
     except ToolError as e:
         print("ERROR (not a verdict) property=%s: %s" % (pid, e), file=sys.stderr)
-        rc = 2
+        # violations that were already reproduced and printed stand: a later stage giving up does not retract them
+        rc = 1 if ctx.violations else 2
     finally:
         if a.keep:
             print("scratch kept at", ctx.scratch, file=sys.stderr)
